@@ -170,6 +170,110 @@ def worker_scenario(kind, n, dur, start2_at, stop1_at, deviations):
     return res
 
 
+OVERLAP_A = ["ack", "nack", "reject", "requeue"]
+OVERLAP_B = ["finish0", "finish1", "consume1"]
+
+
+def overlap_scenario(kind, op_a, op_b, d, deviations):
+    """c0 holds m0 (handed to the application).  Task A disposes m0; task B (the holder's own
+    finish, another consumer's finish, or another consumer's consume) starts d loop iterations
+    after A (d < 0: before)."""
+    x = Exec(kind, deviations=deviations, clients=2)
+    w = x.world
+    loop = x.loop
+    out = dict(got1=None)
+    try:
+        cons = []
+
+        async def setup():
+            await w.connect()
+            await w.broker.queue_declare("q")
+            await w.broker.enqueue(w.key("m0", "job", "q", 9), "old", w.params(retries=3))
+            c0 = w.brokers[0].get_consumer("q", None, None, MessageCategory.NORMAL)
+            c1 = w.brokers[1].get_consumer("q", None, None, MessageCategory.NORMAL)
+            cons.extend([c0, c1])
+            await c0.start()
+            key, _, _ = await c0.consume()
+            await c1.start()
+            return key
+
+        st, key = x.run(setup())
+        assert st == "ok", (st, key)
+        loop.run_for(0.35)  # let c1's background fetch go quiet
+        b = w.brokers[0]
+
+        async def task_a():
+            if op_a == "requeue":
+                await b.requeue(key, "new", w.params(retries=3, tried=1))
+            else:
+                await getattr(b, op_a)(key)
+
+        async def task_b():
+            if op_b == "finish0":
+                await cons[0].finish()
+            elif op_b == "finish1":
+                await cons[1].finish()
+            else:
+                k, p, _ = await cons[1].consume()
+                out["got1"] = (k.id_, p)
+
+        x.mark()
+        tasks = []
+        first, second = (task_a, task_b) if d >= 0 else (task_b, task_a)
+        tasks.append(asyncio.ensure_future(first(), loop=loop))
+
+        async def later():
+            for _ in range(abs(d)):
+                await asyncio.sleep(0)  # one loop iteration each
+            await second()
+
+        tasks.append(asyncio.ensure_future(later(), loop=loop))
+        loop.run_for(0.6)
+        for t in tasks:
+            if not t.done():
+                t.cancel()
+        x.settle(0.05)
+        errs = [repr(t.exception()) for t in tasks if t.done() and not t.cancelled() and t.exception() is not None]
+        obs = w.observe()
+        out.update(points=list(x.chooser.points), handles=loop.handles, iters=x.rel_iter, errors=errs,
+                   entries=[(e["place"], e["payload"], e["params"]["tried"] if e["params"] else None) for e in obs.get("m0", [])],
+                   orphans=obs.get("__orphans__", []),
+                   local1=[i[0].id_ for i in list(getattr(cons[1], "queue", None)._queue)] if getattr(cons[1], "queue", None) is not None else [])
+    finally:
+        x.close()
+    return out
+
+
+def judge_overlap(scn, r):
+    viol = []
+    ents = r["entries"]
+    places = sorted(e[0] for e in ents)
+    if r["orphans"]:
+        viol.append(("ghost", f"after {scn['op_a']} || {scn['op_b']}: {r['orphans']}"))
+    if len(ents) > 1:
+        viol.append(("duplicated", f"after {scn['op_a']} || {scn['op_b']} (offset {scn['d']}) the message is in {places}"))
+        return viol
+    a, b = scn["op_a"], scn["op_b"]
+    # outcomes of the two sequential orders (the second one acting on what the first left)
+    legal = set()
+    if a == "ack":
+        legal.add(())
+    elif a == "nack":
+        legal.add((("dead", "old", 0),))
+    elif a == "reject":
+        legal.update({(("waiting", "old", 0),), (("held", "old", 0),)})
+    else:
+        legal.update({(("waiting", "new", 1),), (("held", "new", 1),)})
+    if b == "finish0":
+        # the holder's shutdown may return the message first; the disposition then finds nothing
+        legal.update({(("waiting", "old", 0),), (("held", "old", 0),)})
+    if tuple(ents) not in legal:
+        viol.append(("wrong-outcome", f"after {a} || {b} (offset {scn['d']}) the message is {ents}, no order of the two explains it (legal {sorted(legal)})"))
+    if r["errors"]:
+        viol.append(("raised", f"{a} || {b} raised {r['errors']}"))
+    return viol
+
+
 def judge_consumers(scn, r):
     viol = []
     for mid, cs in r["got"].items():
@@ -221,6 +325,9 @@ def judge_workers(scn, r):
 
 
 def run_one(scn, deviations):
+    if scn["level"] == "overlap":
+        r = overlap_scenario(scn["kind"], scn["op_a"], scn["op_b"], scn["d"], deviations)
+        return r, judge_overlap(scn, r), dict(entries=r["entries"], got1=r["got1"], local1=r["local1"])
     if scn["level"] == "consumer":
         r = consumer_scenario(scn["kind"], scn["n"], scn.get("start2_at"), deviations, scn.get("enq_late", False))
         return r, judge_consumers(scn, r), dict(got=r["got"], places=r["places"])
@@ -243,6 +350,12 @@ def base_scenarios(tier):
 def jobs(tier):
     bound = 2 if tier == "quick" else 3
     out = []
+    span = 8 if tier == "quick" else 14
+    for kind in ("mem", "redis", "amqp"):
+        for a in OVERLAP_A:
+            for b in OVERLAP_B:
+                out.append(dict(overlap=[dict(level="overlap", kind=kind, n=1, op_a=a, op_b=b, d=d)
+                                         for d in range(-span, span + 1)]))
     for scn in base_scenarios(tier):
         base, _, _ = run_one(scn, None)
         n_it = base["iters"]
@@ -270,7 +383,7 @@ def jobs(tier):
 
 def run_job(job):
     acc = Acc()
-    scn = job["scn"]
+    scn = job.get("scn")
 
     def record(s, dev, r, viol, summary):
         acc.executions += 1
@@ -281,7 +394,7 @@ def run_job(job):
         stalled = " stalled-take" if dev and any(d[2] == "stall:MULTI" for d in dev) else ""
         for sig, what in viol:
             acc.violations.append(dict(
-                signature=f"{s['kind']} {s['level']} {sig}{stalled}",
+                signature=f"{s['kind']} {s['level']} {sig}{stalled}" + (f" {s['op_a']}||{s['op_b']}" if s["level"] == "overlap" else ""),
                 what=what + f" [scenario {s}, deviations {dev}]",
                 job=dict(scn=s, dev=dev, bound=0, one=True),
                 detail=summary,
@@ -289,6 +402,11 @@ def run_job(job):
         if len(acc.samples) < 2:
             acc.samples.append(dict(scenario=s, deviations=dev, observed=summary))
 
+    if "overlap" in job:
+        for s_ in job["overlap"]:
+            r, viol, summary = run_one(s_, None)
+            record(s_, None, r, viol, summary)
+        return acc.to_dict()
     if job.get("one"):
         r, viol, summary = run_one(scn, job.get("dev"))
         record(scn, job.get("dev"), r, viol, summary)
